@@ -146,4 +146,101 @@ theorem parse_nosrc (v : Str) (ms : List Str) (tr : Option Str) (hv : C13.Word v
   simp only [hST, hc0, Bool.false_eq_true, if_false]
   rw [← List.cons_append, hW, C13.finish_cons]
 
+/-! ### the well-formed pieces are words -/
+
+theorem not_mem_of_containsChar {c : Char} {s : Str} (h : containsChar c s = false) : c ∉ s := by
+  intro hm
+  have : containsChar c s = true := by
+    unfold containsChar
+    exact List.any_eq_true.mpr ⟨c, hm, by simp⟩
+  rw [h] at this; cases this
+
+theorem validateChannel_iff (ch : Str) :
+    validateChannel ch = true ↔
+      ch ≠ [] ∧ containsChar ':' ch = false ∧ containsChar ',' ch = false ∧
+        hasChannelPrefix ch = true := by
+  unfold validateChannel
+  cases ch <;> simp
+
+theorem validateUsername_iff (u : Str) :
+    validateUsername u = true ↔
+      u ≠ [] ∧ hasChannelPrefix u = false ∧ u.any badUsernameChar = false ∧
+        containsChar '.' u = false ∧ containsChar ':' u = false ∧ containsChar ',' u = false := by
+  unfold validateUsername validateUsernameErr
+  cases u with
+  | nil => simp
+  | cons c cs =>
+    cases hasChannelPrefix (c :: cs) <;> cases (c :: cs).any badUsernameChar <;>
+      cases containsChar '.' (c :: cs) <;> cases containsChar ':' (c :: cs) <;>
+      cases containsChar ',' (c :: cs) <;> simp
+
+theorem startsWith_of_not_contains {c : Char} {s : Str} (h : containsChar c s = false) :
+    startsWithChar c s = false := by
+  cases s with
+  | nil => rfl
+  | cons x xs =>
+    have := not_mem_of_containsChar h
+    simp only [List.mem_cons, not_or] at this
+    simp only [startsWithChar, beq_eq_false_iff_ne, ne_eq]
+    exact fun e => this.1 e.symm
+
+theorem WfChan.word {ch : Str} (h : WfChan ch) : C13.Word ch := by
+  obtain ⟨hv, hw⟩ := h
+  obtain ⟨hne, hcol, _, _⟩ := (validateChannel_iff ch).mp hv
+  exact ⟨hne, C13.wsFree_of_all ch hw, startsWith_of_not_contains hcol⟩
+
+theorem WfChan.noComma {ch : Str} (h : WfChan ch) : ',' ∉ ch :=
+  not_mem_of_containsChar ((validateChannel_iff ch).mp h.1).2.2.1
+
+theorem WfNick.word {n : Str} (h : WfNick n) : C13.Word n := by
+  obtain ⟨hne, _, hbad, _, hcol, _⟩ := (validateUsername_iff n).mp h
+  refine ⟨hne, ?_, startsWith_of_not_contains hcol⟩
+  intro c hc
+  have hb : badUsernameChar c = false := by
+    cases hb : badUsernameChar c with
+    | false => rfl
+    | true =>
+      have : n.any badUsernameChar = true := List.any_eq_true.mpr ⟨c, hc, hb⟩
+      rw [hbad] at this; cases this
+  unfold badUsernameChar at hb
+  simp only [Bool.or_eq_false_iff] at hb
+  exact isAscii_of_isWhitespace_false c hb.1.1.1
+
+theorem WfNick.noComma {n : Str} (h : WfNick n) : ',' ∉ n :=
+  not_mem_of_containsChar ((validateUsername_iff n).mp h).2.2.2.2.2
+
+theorem WfWord.word {p : Str} (h : WfWord p) : C13.Word p := C13.word_of_bools p h
+
+theorem WfKey.word {k : Str} (h : WfKey k) : C13.Word k := h.1.word
+
+theorem WfKey.noComma {k : Str} (h : WfKey k) : ',' ∉ k := not_mem_of_containsChar h.2
+
+theorem splitComma_single {s : Str} (h : ',' ∉ s) : splitComma s = [s] :=
+  C14.splitOnChar_free ',' s h
+
+/-- a well-formed nickname is not touched by the `" :"` rule of `to_string_with_source` -/
+theorem WfNick.renderParams {n : Str} (h : WfNick n) : renderParams [n] = ' ' :: n := by
+  obtain ⟨hne, _, hbad, _, hcol, _⟩ := (validateUsername_iff n).mp h
+  have hany : n.any (fun c => c == ':' || c == ' ' || c == '\t') = false := by
+    rw [List.any_eq_false]
+    intro c hc
+    have hb : badUsernameChar c = false := by
+      cases hb : badUsernameChar c with
+      | false => rfl
+      | true =>
+        have : n.any badUsernameChar = true := List.any_eq_true.mpr ⟨c, hc, hb⟩
+        rw [hbad] at this; cases this
+    have hcc : c ≠ ':' := fun e => not_mem_of_containsChar hcol (e ▸ hc)
+    unfold badUsernameChar at hb
+    simp only [Bool.or_eq_false_iff] at hb
+    have hw := hb.1.1.1
+    intro hx
+    simp only [Bool.or_eq_true, beq_iff_eq] at hx
+    rcases hx with (hx | hx) | hx
+    · exact hcc hx
+    · subst hx; revert hw; decide
+    · subst hx; revert hw; decide
+  have hemp : n.isEmpty = false := by cases n <;> simp_all
+  simp [Irc.renderParams, hany, hemp, str]
+
 end Irc.Wire
